@@ -7,7 +7,7 @@ info-only stream scanning by declared length."""
 import hashlib
 import json
 
-from vlib import runner, sut, std
+from vlib import runner, sut, std, fuzz
 from vlib.runner import Outcome, Report, Reject
 from gen import messages as gmsg, templates as gtemplates
 from refbufr import frame
@@ -269,6 +269,17 @@ def check_any(case):
     return check_stream(case) if isinstance(case, StreamCase) else check_case(case)
 
 
+# ---- coverage-guided stage: the same generator and oracle, decisions taken from fuzzer bytes (vlib.fuzz) ----
+_FUZZ_OPTS = small_opts('quick')
+
+
+def _fuzz_gen(ch):
+    return gmsg.gen_case(ch, _FUZZ_OPTS)
+
+
+fuzz_case = fuzz.structured_target(_fuzz_gen, check_case)
+
+
 def run(tier, seed):
     rep = Report(PID, tier, seed, 'exploration')
     rep.rule = ('reference-built messages (editions 2,3,4; section 2 present/absent; random identification fields); for each, every '
@@ -289,6 +300,7 @@ def run(tier, seed):
     rep.required_classes = ['edition2', 'edition3', 'edition4', 'section2', 'no_section2', 'noise_in_data_section',
                             'info_stream_declared_longer', 'info_stream_noisy']
     rep.extra['queries_per_message'] = 2 * len(ALL_NAMES) * (len(INDICES) + 1)
+    fuzz.run_structured(rep, 'checks.c17', _fuzz_gen, tier)
     return rep.finish()
 
 
